@@ -307,6 +307,7 @@ where R: EucRing + DivRound + Debug + Send + 'static, for<'x> &'x R: EucRingOps<
     }
 
     let both_zero = pz(ap) && pz(bp);
+    s.count(&format!("gcd-path.{}", if both_zero { "both-zero" } else if !pz(ap) && qdivides(d, ap, bp) { "early-x-divides-y" } else if !pz(bp) && qdivides(d, bp, ap) { "early-y-divides-x" } else { "loop" }));
     let Some((g, gx, l, g2)) = timed_gcds(s, ring, &inp, &a, &b) else { return };
     if g.is_none() || gx.is_none() || (l.is_none() && !both_zero) { unexpected(s, "gcd/gcdx/lcm"); }
     s.case(&format!("{} gcd {} {}", ring, ptxt(ap), ptxt(bp)), &rt(&g), nontriv);
@@ -421,6 +422,9 @@ where R: EucRing + Debug + Send + 'static, for<'x> &'x R: EucRingOps<R> {
         s.oracle((c.enorm)(r) < (c.enorm)(b), "remainder is zero or of strictly smaller norm than b", &inp, &format!("r={}", t(r)));
     }
     let both_zero = a.is_zero() && b.is_zero();
+    if let Some(p) = guard(|| if both_zero { "both-zero" } else if a.divides(b) { "early-x-divides-y" } else if b.divides(a) { "early-y-divides-x" } else { "loop" }) {
+        s.count(&format!("gcd-path.{}", p));
+    }
     let Some((g, gx, l, g2)) = timed_gcds(s, ring, &inp, a, b) else { return };
     if g.is_none() || gx.is_none() || (l.is_none() && !both_zero) {
         unexpected(s, "gcd/gcdx/lcm");
@@ -537,7 +541,7 @@ fn int_values(r: &mut Rng, thorough: bool) -> Vec<BigInt> {
     v.push(pow10(30)); v.push(pow10(30) + 1); v.push(-pow10(30));
     v.push(pow10(300)); v.push(pow10(300) + bi(7)); v.push(-(pow10(300) + bi(7)));
     if thorough { v.push(pow10(300) * 3 + 1); v.push(pow10(18)); v.push(-(pow10(18) * bi(9))); v.push(pow10(400)); }
-    let n = if thorough { 24 } else { 8 };
+    let n = if thorough { 70 } else { 8 };
     for i in 0..n {
         let bits = [8u32, 20, 31, 40, 53, 62, 64, 100, 126, 200, 1000][(r.below(11)) as usize];
         let _ = i;
@@ -581,7 +585,7 @@ fn quad_values(r: &mut Rng, lim_bits: u32, big: bool, thorough: bool) -> Vec<P> 
         v.push((pow10(300), BigInt::from(-7))); v.push((pow10(300) + 1, pow10(299) * 3));
         v.push((pow2(62) + 1, -pow2(62))); v.push((pow2(31), pow2(31) + 1));
     }
-    let n = if thorough { 30 } else { 10 };
+    let n = if thorough { 120 } else { 10 };
     for _ in 0..n {
         let bits = if big { [4u32, 10, 30, 53, 64, 100, 300][r.below(7) as usize] } else { 1 + r.below(lim_bits as u64) as u32 };
         let bits2 = if r.chance(1, 4) { 1 } else { bits };
@@ -727,12 +731,20 @@ fn main() {
 
     // ---- integers
     let vals = int_values(&mut r, th);
-    let ties = tie_pairs(&mut r, if th { 6000 } else { 600 });
+    let ties = tie_pairs(&mut r, if th { 60000 } else { 600 });
     s.count_n("int.values", vals.len() as u64);
     run_ints::<BigInt>(&mut s, &vals, &ties);
     run_ints::<i64>(&mut s, &vals, &ties);
     run_ints::<i128>(&mut s, &vals, &ties);
     run_ints::<i32>(&mut s, &vals, &ties);
+    {
+        // exhaustive small space: all pairs in -12..=12 (-40..=40 in the thorough tier)
+        let m = if th { 40 } else { 12 };
+        let small: Vec<BigInt> = (-m..=m).map(bi).collect();
+        run_ints::<i32>(&mut s, &small, &[]);
+        if th { run_ints::<BigInt>(&mut s, &small, &[]); }
+        s.count_n("exhaustive.int-small-pairs", (small.len() * small.len()) as u64);
+    }
 
     // ---- quadratic integers
     macro_rules! quad {
@@ -744,7 +756,7 @@ fn main() {
             run_quad(&mut s, &c, &vals, $pairs, &mut r);
         }};
     }
-    let qp = if th { 12000 } else { 1200 };
+    let qp = if th { 60000 } else { 1200 };
     // corpus (F4): gcd(-2, 4) in Z[i]; the tested example 49-58i by 7+9i
     {
         let mk = |p: &P| -> Option<GaussInt<BigInt>> { Some(GaussInt::new(p.0.clone(), p.1.clone())) };
@@ -760,6 +772,24 @@ fn main() {
         for (a, b) in [(p(-2, 0), p(4, 0)), (p(0, 2), p(4, 0)), (p(49, -58), p(7, 9)), (p(0, 0), p(-1, 1))] {
             guarded_case(&mut s, "corpus eisen", |s| quad_pair(s, &c, &a, &b));
         }
+    }
+    {
+        // exhaustive small space: all pairs with coordinates in -2..=2 (-3..=3 in the thorough tier)
+        let m = if th { 3 } else { 2 };
+        let mut small: Vec<P> = vec![];
+        for a in -m..=m { for b in -m..=m { small.push((bi(a), bi(b))); } }
+        macro_rules! quad_small {
+            ($t:ty, $d:literal, $fam:literal) => {{
+                let mk = |p: &P| -> Option<yui::QuadInt<$t, $d>> { Some(yui::QuadInt::<$t, $d>::new(<$t as MInt>::from_big(&p.0)?, <$t as MInt>::from_big(&p.1)?)) };
+                let un = |x: &yui::QuadInt<$t, $d>| -> P { (x.left().big(), x.right().big()) };
+                let c = QuadCtx { d: $d, ring: format!("{}.{}", $fam, <$t as MInt>::TAG), mk: &mk, un: &un, lim: None };
+                for a in &small { for b in &small { guarded_case(&mut s, "small quad pair", |s| quad_pair(s, &c, a, b)); } }
+            }};
+        }
+        quad_small!(i64, -1, "G");
+        quad_small!(i64, -3, "E");
+        if th { quad_small!(BigInt, -1, "G"); quad_small!(BigInt, -3, "E"); }
+        s.count_n("exhaustive.quad-small-pairs", (small.len() * small.len()) as u64);
     }
     quad!(BigInt, -1, "G", 29, true, qp);
     quad!(BigInt, -3, "E", 29, true, qp);
